@@ -19,5 +19,6 @@
 unsigned long long libwifi_get_epoch(void) {
     struct timespec spec;
     clock_gettime(CLOCK_REALTIME, &spec);
-    return spec.tv_sec * 1000 + spec.tv_nsec / 1000;
+    // Microseconds since the epoch: both terms must be in the same unit
+    return spec.tv_sec * 1000000ULL + spec.tv_nsec / 1000;
 }
